@@ -230,7 +230,7 @@ def check_C16(tier):
     rng = random.Random(chk.seed)
     infer.verify_theorems(chk, ["ZModel", "ZAccept"], tier, rng)
     _mc_ocf(chk, tier)
-    scen = ocf.gen_scenarios(rng, ["z"], 400 if tier == "quick" else 5000, persistence=False)
+    scen = ocf.gen_scenarios(rng, ["z"], 400 if tier == "quick" else 30000, persistence=False)
     keep = ocf.run_lifecycles(chk, scen, "z")
     chk.cov["construct_refused"] = sum(1 for r in keep if r["events"] and r["events"][0].get("outcome") == "refused")
     chk.cov["with_facts"] = sum(1 for r in keep if r["sc"]["facts"])
@@ -276,7 +276,7 @@ def check_C18(tier):
     rng = random.Random(chk.seed)
     _mc_ocf(chk, tier)
     ocf.run_laws(chk, tier, rng)
-    scen = ocf.gen_scenarios(rng, ["custom", "z", "c"], 90 if tier == "quick" else 1500, persistence=False)
+    scen = ocf.gen_scenarios(rng, ["custom", "z", "c"], 90 if tier == "quick" else 6000, persistence=False)
     ocf.run_lifecycles(chk, scen, "kinds")
     chk.cov["exhaustive"] = True
     chk.cov["rule"] = (
@@ -294,7 +294,7 @@ def check_C20(tier):
     chk = Check("C20", tier)
     rng = random.Random(chk.seed)
     _mc_ocf(chk, tier)
-    scen = ocf.gen_scenarios(rng, ["z", "c", "custom"], 150 if tier == "quick" else 2000, persistence=True)
+    scen = ocf.gen_scenarios(rng, ["z", "c", "custom"], 150 if tier == "quick" else 9000, persistence=True)
     keep = ocf.run_lifecycles(chk, scen, "persist")
     cnt = {"save_ok": 0, "save_failed": 0, "load": 0, "fresh_process_load": 0, "roundtrips": 0}
     for r in keep:
@@ -330,7 +330,7 @@ def check_C17(tier):
     rng = random.Random(chk.seed)
     infer.verify_theorems(chk, ["InclC", "CBound"], tier, rng)
     scen = []
-    n = 140 if tier == "quick" else 1500
+    n = 140 if tier == "quick" else 4000
     tries = 0
     while len(scen) < n and tries < 20 * n:
         tries += 1
